@@ -28,10 +28,12 @@ simplify = B.simplify
 
 def strategy(tier):
     kinds = ('call', 'call', 'await', 'map', 'amap', 'wait', 'wait')
-    vt = B.with_schedule(B.program(kinds=kinds), 1)
+    # half of the single-loop programs break ties between timers that fall on one virtual instant by a generated seed
+    vt = st.builds(lambda c, tie: dict(c, tie=tie) if tie else c, B.with_schedule(B.program(kinds=kinds), 1),
+                   st.one_of(st.just(0), st.integers(1, 10 ** 6)))
     sd = B.with_schedule(B.program(kinds=kinds, nmax=5, shutdown=True), 1)
     f1 = B.with_schedule(B.program(kinds=kinds, nmax=4, with_foreign=1), 2)
-    return st.one_of(vt, sd, sd, f1)
+    return st.one_of(vt, sd, sd, f1, B.pileup())
 
 
 def run_case(case):
